@@ -214,6 +214,60 @@ def gen_held(rnd, n):
     return out
 
 
+CUSTOM2 = (b"second503((", b"))")
+
+
+def gen_pages(rnd, n):
+    """The operator REPLACES the custom error pages in place (same directory) between deploys: a stopped service answers with
+    the page its own latest deploy read - the new page after a redeploy, still the old one without; a second service deployed
+    after the replacement shows the new page while the first keeps the old. Each group: (page version, message, request ids)."""
+    H = m4.H
+    out = []
+    for i in range(n):
+        steps, groups = [], []
+        nreq = [0]
+
+        def deploy(cid, name, host, tgt):
+            steps.append({"op": "deploy", "id": cid, "name": H(name), "hosts": [H(host)], "prefixes": [], "tls": False, "tls_redirect": False,
+                          "strip": False, "cert": "none", "pages": "good", "targets": [{"name": H(tgt), "probes": ["ok"]}],
+                          "deploy_timeout": m4.DEPLOY_TIMEOUT, "drain_timeout": SEC,
+                          "topts": {k: (H(v) if isinstance(v, bytes) else v) for k, v in m4.TOPTS[0].items() if k != "tag"}})
+
+        def stopped(cid, name, host, version):
+            msg = gen_msg(rnd, False)
+            steps.append({"op": "stop", "id": cid, "name": H(name), "msg": H(msg), "drain_timeout": SEC})
+            ids = []
+            for _ in range(rnd.randint(1, 2)):
+                rid = "p%d" % nreq[0]
+                nreq[0] += 1
+                steps.append({"op": "request", "id": rid, "async": False, "host": H(host), "uri": H(rnd.choice([b"/", b"/x?y=1"])), "tls": False,
+                              "method": rnd.choice(["GET", "POST"]), "headers": []})
+                ids.append(rid)
+            groups.append({"version": version, "msg": msg, "ids": ids})
+            steps.append({"op": "resume", "id": cid + "r", "name": H(name)})
+        variant = i % 4
+        deploy("c0", b"web", b"a.example.com", b"ta:80")
+        stopped("c1", b"web", b"a.example.com", 1)
+        steps.append({"op": "write_pages", "version": 2})
+        if variant == 0:      # redeploy: the new page
+            deploy("c2", b"web", b"a.example.com", b"tb:80")
+            stopped("c3", b"web", b"a.example.com", 2)
+        elif variant == 1:    # no redeploy: the page read at deploy time stays
+            stopped("c3", b"web", b"a.example.com", 1)
+        elif variant == 2:    # another service deployed after the replacement; the first keeps its page
+            deploy("c2", b"api", b"b.example.com", b"tc:80")
+            stopped("c3", b"api", b"b.example.com", 2)
+            stopped("c4", b"web", b"a.example.com", 1)
+        else:                 # replaced twice: back to the first page, redeployed each time
+            deploy("c2", b"web", b"a.example.com", b"tb:80")
+            stopped("c3", b"web", b"a.example.com", 2)
+            steps.append({"op": "write_pages", "version": 1})
+            deploy("c4", b"web", b"a.example.com", b"td:80")
+            stopped("c5", b"web", b"a.example.com", 1)
+        out.append({"scenario": {"steps": steps}, "groups": groups, "variant": variant})
+    return out
+
+
 def run(tier, seed):
     res = Result("C08", tier, seed)
     work = Work("C08")
@@ -288,6 +342,35 @@ def run(tier, seed):
                     after = rs.get("after", {})
                     if bad or after.get("status") != 200 or not after.get("served_by"):
                         held_bad.append((j, bad, after))
+        # ---- custom error pages replaced in place between deploys (same monitor, the page version of the service's latest deploy)
+        pgs = gen_pages(random.Random(seed * 37 + 3), 8 if tier == "quick" else 40)
+        pages_bad, pages_n = [], 0
+        if harness_ok and ok and page is not None:
+            p_ok, p_out, p_outs = m4x.go_run(work, [x["scenario"] for x in pgs])
+            if not p_ok:
+                harness_ok, gout = False, p_out
+            else:
+                items, where = [], []
+                for j, (x, o) in enumerate(zip(pgs, p_outs)):
+                    rs = {r["id"]: r for r in o["results"]}
+                    for g in x["groups"]:
+                        obs = ["(false, (%d)%%N, %s, %s)" % (rs.get(i, {}).get("status", 0), bool_lit(bool(rs.get(i, {}).get("served_by"))),
+                                                           str_lit(bytes.fromhex(rs.get(i, {}).get("body", "")))) for i in g["ids"]]
+                        pages_n += len(obs)
+                        items.append("(%s, %s, [%s])" % (bool_lit(g["version"] == 2), str_lit(g["msg"]), "; ".join(obs)))
+                        where.append((j, g))
+                defs_p = ("Definition pg_pre : str := %s.\nDefinition pg_suf : str := %s.\n"
+                          "Definition env1 := mkEnv (mkPage pg_pre %s %s %s pg_suf) (%s, %s).\n"
+                          "Definition env2 := mkEnv (mkPage pg_pre %s %s %s pg_suf) (%s, %s).\n"
+                          % (str_lit(page[0]), str_lit(page[4]), str_lit(page[1]), str_lit(page[2]), str_lit(page[3]),
+                             str_lit(CUSTOM[0]), str_lit(CUSTOM[1]), str_lit(page[1]), str_lit(page[2]), str_lit(page[3]),
+                             str_lit(CUSTOM2[0]), str_lit(CUSTOM2[1])))
+                rows = m4x.coq_map(work, IMPORTS.replace("corr.C08corr.", "corr.C08corr corr.C08held."), defs_p, items,
+                                   "fun x : bool * str * list held_obs => let '(second, m, l) := x in c08_held_bad (if second then env2 else env1) true m l", "C08pages", shard=4)
+                for (j, g), bad in zip(where, rows):
+                    if bad:
+                        pages_bad.append((j, g, bad))
+        res.coverage["custom_pages_replaced_between_deploys"] = {"scenarios": len(pgs), "answers_judged": pages_n, "bad": len(pages_bad)}
         res.coverage["held_by_a_pause_when_stopped"] = {"scenarios": len(held), "answers_judged": held_n,
                                                         "with_a_repeated_pause": sum(1 for x in held if x["repeat"]), "bad": len(held_bad)}
         # ---- judge
@@ -361,6 +444,16 @@ def run(tier, seed):
                     "status": rr.get("status"), "served_by": rr.get("served_by"), "location": rr.get("location"),
                     "body_len": len(body), "body_excerpt": (body if len(body) < 400 else body[-400:]).decode("latin-1")})
             return p
+        if pages_bad and not mon_fail and not held_bad:
+            j, g, bad = pages_bad[0]
+            rs = {r["id"]: r for r in p_outs[j]["results"]}
+            res.violation("pages-%d" % j, {
+                "property": "C08", "seed": seed, "tier": tier,
+                "what": "custom error pages replaced in place between deploys: a stopped service must answer 503 with the page its own "
+                        "latest deploy read, rendered with the operator's message (corr/C08held.c08_held_bad with that page)",
+                "scenario": pgs[j]["scenario"], "stop_message": g["msg"].decode("latin1"), "page_version_expected": g["version"],
+                "wrong_answers": [{"request": g["ids"][k], "status": rs.get(g["ids"][k], {}).get("status"),
+                                   "body": bytes.fromhex(rs.get(g["ids"][k], {}).get("body", "")).decode("latin1")[:300]} for k in bad]})
         if held_bad and not mon_fail:
             j, bad, after = held_bad[0]
             x = held[j]
